@@ -1707,6 +1707,8 @@ def dispatch(f, /, *a, **k):
             tf is _types.BuiltinFunctionType or tf is _types.BuiltinMethodType or tf is _types.WrapperDescriptorType
             or tf is _types.MethodWrapperType or tf is _types.MethodDescriptorType):
         return f(*a, **k)  # functools.partial, callable instances, descriptors: Python-level
+    if tf is _types.MethodWrapperType and name in ("__setattr__", "__getattribute__", "__delattr__", "__init__", "__init_subclass__"):
+        return f(*a, **k)  # object-protocol slots: reference transparent
     if tf is _types.MethodWrapperType or tf is _types.BuiltinMethodType:
         if _real_isinstance(slf, (_CONTAINER_TYPES, _types.ModuleType)) is False and slf is not None:
             if _real_isinstance(slf, (str, bytes, int)) and name in ("__eq__", "__ne__"):
